@@ -3,7 +3,7 @@ sys.path.insert(0, os.path.join(os.path.dirname(__file__), '..', '..', 'tools'))
 from vlib import Unit, Query, Runner
 QOPS = ['make<A> into slot', 'make<B> into slot', 'move-assign slot from the other', 'reset', 'move-construct a temporary that dies', 'push into vector',
         'reallocate vector (move every element to new storage)', 'pop vector', 'move vector.back() into slot']
-OOPS = ['construct empty', 'construct with value', 'copy-construct from the other', 'copy-assign from the other', 'assign value', 'assign empty optional', 'read']
+OOPS = ['construct empty', 'construct with value', 'copy-construct from the other', 'copy-assign from the other', 'assign value', 'assign empty optional', 'read', 'copy-assign to itself']
 
 
 def plan(tier):
@@ -22,7 +22,7 @@ def plan(tier):
                                         'first_operations': [QOPS[op0], QOPS[op1]], 'operations': QOPS}))
         qs.append(Query('optional_%d' % n, ['-DMODE_O', '-DNOPS=%d' % n], ['both optionals hold values at the end', 'last step reads an empty optional'],
                         unwind=2, hardcap=16, est_gb=2, timeout=3000 if th else 900,
-                        profile=[[1, 0, 5, 2, 1, 0, 3, 0, 0, 4, 1, 9, 5, 0, 0][:3 * n], [1, 1, 7, 3, 0, 0, 5, 1, 0, 6, 0, 0, 2, 1, 0][:3 * n], [0, 0, 0, 6, 0, 0, 4, 1, 50, 2, 0, 0, 3, 1, 0][:3 * n]],
+                        profile=[[1, 0, 5, 2, 1, 0, 3, 0, 0, 4, 1, 9, 5, 0, 0][:3 * n], [1, 1, 7, 3, 0, 0, 5, 1, 0, 6, 0, 0, 2, 1, 0][:3 * n], [0, 0, 0, 6, 0, 0, 4, 1, 50, 2, 0, 0, 3, 1, 0][:3 * n], [1, 0, 9, 7, 0, 0, 6, 0, 0, 7, 1, 0, 5, 0, 0][:3 * n]],
                         sample={'history': '%d symbolic operations over two optionals of an instance-counting value type' % n, 'operations': OOPS}))
     corpus = [(['-DMODE_Q', '-DNOPS=3'], v) for v in ([0, 0, 1, 1, 2, 0], [0, 0, 5, 0, 6, 0], [0, 0, 3, 0, 3, 0], [1, 1, 4, 1, 0, 1], [0, 0, 5, 0, 8, 1], [0, 1, 5, 1, 7, 0])] + \
              [(['-DMODE_O', '-DNOPS=3'], v) for v in ([1, 0, 5, 2, 1, 0, 5, 0, 0], [1, 0, 5, 3, 1, 0, 6, 1, 0], [0, 0, 0, 6, 0, 0, 4, 0, 9], [1, 1, 3, 5, 1, 0, 6, 1, 0], [1, 0, 2, 1, 1, 3, 3, 0, 0])]
